@@ -82,12 +82,58 @@ def run(ctx):
             failures.append(Failure("oracle", "c05:const-sized:input-shape:" + c["kind"], f"input parties {r['input_gates']} but the parameter types (sizes from the constants) need {want}", sub, want, r["input_gates"]))
         if r["out_len"] != 161 + T.size_of(c["ret"]):
             failures.append(Failure("oracle", "c05:const-sized:output-shape:" + c["kind"], f"{r['out_len']} output wires for 161 panic bits + a return type of {T.size_of(c['ret'])} bits (sizes from the constants)", sub, 161 + T.size_of(c["ret"]), r["out_len"]))
+    # (e) mutants of generated programs (one expression site of another type, one token replaced) that check.rs ACCEPTS:
+    # whatever is accepted must compile without a panic to a circuit of the shape of the types check.rs itself reports
+    import random
+    from . import mutants
+    mcases = []
+    for i in range(120 if quick else 3000):
+        seed = ctx.rng.randrange(1 << 48)
+        feats = mutants.FEATS[i % len(mutants.FEATS)]
+        base = c01.gen_case(seed, 0, 0, features=feats, depth=3)
+        m = mutants.swap_mutant(seed, feats)
+        if m:
+            mcases.append({"id": len(mcases), "kind": "type-swap", "src": m["src"], "seed": seed})
+        r2 = random.Random(seed ^ 0xabcdef)
+        for _ in range(3):
+            k, src = mutants.text_mutant(r2, base["src"])
+            if src:
+                mcases.append({"id": len(mcases), "kind": k, "src": src, "seed": seed})
+    ta = common.run_lines_guarded(common.GVH, [{"id": c["id"], "op": "typed_ast", "src": c["src"]} for c in mcases], per_case_timeout=20.0)
+    acc = []
+    for c in mcases:
+        r = ta.get(c["id"]) or {}
+        main = next((f for f in (r.get("prog") or {}).get("fns", []) if f["name"] == "main"), None)
+        if r.get("outcome") == "ok" and main:
+            c["params"], c["ret"] = main["params"], main["ret"]
+            acc.append(c)
+    mres = common.run_lines_guarded(common.GVH, [
+        {"id": c["id"], "op": "compile_eval", "src": c["src"], "kind": "ssa", "dedup": True,
+         "inputs": [gen_prog.party_inputs(c["params"], [T.rand_value(ctx.rng, t, 0.4) for _, t in c["params"]])]} for c in acc], per_case_timeout=20.0)
+    mtally = {"mutants": len(mcases), "accepted": len(acc), "compiled": 0}
+    for c in acc:
+        r = mres.get(c["id"]) or {}
+        sub = {"op": "c05-mutant", "seed": c["seed"], "kind": c["kind"], "src": c["src"]}
+        if not r.get("ok"):
+            if r.get("stage") == "panic" or r.get("hang") or "died" in r:
+                failures.append(Failure("oracle", f"c05:accepted-mutant:compiler-panics:{c['kind']}", f"a program the type checker accepts makes the compiler panic: {str(r.get('detail'))[:200]}", sub, "a circuit or an error", r))
+            continue
+        mtally["compiled"] += 1
+        want = [T.size_of(t) for _, t in c["params"]]
+        if len(c["params"]) == 1 and c["params"][0][1]["k"] == "array":
+            want = [T.size_of(c["params"][0][1]["elem"])] * c["params"][0][1]["n"]
+        if r["validate"] != "ok" and sum(want) > 0:
+            failures.append(Failure("oracle", "c05:accepted-mutant:invalid-circuit:" + r["validate"].split(":")[0], f"the circuit of an accepted program fails its own validation: {r['validate']}", sub, "ok", r["validate"]))
+        if r["input_gates"] != want:
+            failures.append(Failure("oracle", "c05:accepted-mutant:input-shape", f"input parties {r['input_gates']} but the parameter types need {want}", sub, want, r["input_gates"]))
+        if r["out_len"] != 161 + T.size_of(c["ret"]):
+            failures.append(Failure("oracle", "c05:accepted-mutant:output-shape", f"{r['out_len']} output wires for 161 panic bits + a return type of {T.size_of(c['ret'])} bits (the type check.rs reports for main)", sub, 161 + T.size_of(c["ret"]), r["out_len"]))
     seen, uniq = set(), []
     for f in failures:
         if f.signature not in seen:
             seen.add(f.signature); uniq.append(f)
     coverage = {
-        "evaluations": tally["value"] + tally["panic"] + ztally["value"] + ztally["panic"] + n_corpus + ctally["compiled"],
+        "evaluations": tally["value"] + tally["panic"] + ztally["value"] + ztally["panic"] + n_corpus + ctally["compiled"] + mtally["compiled"],
         "distinct_nontrivial": len(cases) - tally["rejected"],
         "rule": "(a) generated well-typed programs with all literal types written out (tools/gv/gen_prog.py): must be accepted, compile "
                 "without a panic in 4 circuit configurations, pass Circuit::validate, have one input party per parameter (one per "
@@ -97,8 +143,11 @@ def run(ctx):
                 "trip counts and parties come from constants (external values, constant expressions, `[T; const { .. }]`, `[x; N]`, "
                 "`[7; N]` with a number without a suffix in a typed position), compiled with generated constant values: accepted, no "
                 "compiler panic, valid, input parties and 161 + size(return type) outputs as the types with the sizes filled in "
-                "require. non-trivial = accepted generated programs",
-        "distribution": {"runs": tally, "zero_size_runs": ztally, "corpus_programs_compiled": n_corpus, "const_sized": ctally, "generator": stats},
+                "require; (e) mutants of generated programs (one expression site generated with another type, one token replaced) that "
+                "check.rs ACCEPTS: they must compile without a panic to a valid circuit whose input parties and output width are "
+                "those of the parameter and return types check.rs itself reports (harness op typed_ast). non-trivial = accepted "
+                "generated programs",
+        "distribution": {"runs": tally, "zero_size_runs": ztally, "corpus_programs_compiled": n_corpus, "const_sized": ctally, "accepted_mutants": mtally, "generator": stats},
         "samples": [{"src": cases[0]["src"]}, {"src": zcases[0]["src"]}],
     }
     return common.finish(ctx, uniq, coverage, ["programs of nesting depth <= 3, arrays of at most 4 elements"], "proof", search=None)
